@@ -209,6 +209,60 @@ def _c01_history_worker(args):
     return ev
 
 
+def _segment_worker(args):
+    """one segment of a run in its own interpreter: build + calibrate(n), or restore from the folder + calibrate(n)"""
+    cfg, folder, first, n, repo = args
+    os.environ["VERIF_REPO"] = repo
+    from . import common
+
+    common.use_repo()
+    from black_it.calibrator import Calibrator
+
+    try:
+        with common.quiet():
+            cal = build(cfg, folder=folder) if first else Calibrator.restore_from_checkpoint(folder, model=ar_model)
+            cal.calibrate(n)
+        ev = observe(cal)
+    except Exception as e:  # noqa: BLE001
+        ev = [{"e": "crash", "what": f"{type(e).__name__}: {e}"[:200]}]
+    common.shutdown_loky()
+    return ev
+
+
+def run_split_fresh(cfg: dict, parts: list[int], repo: str) -> list[dict]:
+    """C05 across process boundaries: every segment runs in a fresh interpreter and resumes from the checkpoint on disk"""
+    import multiprocessing as mp
+    from concurrent.futures import ProcessPoolExecutor
+
+    folder = tempfile.mkdtemp(prefix="verif-c05f-")
+    ev = [{"e": "variant", "axes": "fresh-process:" + "+".join(str(p) for p in parts)}]
+    try:
+        ctx = mp.get_context("spawn")
+        last = None
+        for i, n in enumerate(parts):
+            with ProcessPoolExecutor(max_workers=1, mp_context=ctx) as ex:
+                last = ex.submit(_segment_worker, (cfg, folder, i == 0, n, repo)).result()
+            if last and last[0]["e"] == "crash":
+                break
+        ev += last or []
+    finally:
+        shutil.rmtree(folder, ignore_errors=True)
+    return ev
+
+
+def _c05_fresh_worker(args):
+    cfg, splits, repo = args
+    os.environ["VERIF_REPO"] = repo
+    from . import common
+
+    common.use_repo()
+    ev = run_split(cfg, [(cfg["batches"], "end")])
+    for parts in splits:
+        ev += run_split_fresh(cfg, parts, repo)
+    common.shutdown_loky()
+    return {"cfg": cfg, "ev": ev, "splits": [[(p, "fresh") for p in parts] for parts in splits]}
+
+
 def fresh_map(fn, jobs, procs: int):
     """every job in its own fresh interpreter"""
     import multiprocessing as mp
